@@ -752,6 +752,21 @@ theorem setEpv_eq {d a : Content} (hc : conf a = conf d) : setEpv d (epv a) = { 
 theorem cfg_eq_of_conf_epv {d a : Content} (hc : conf a = conf d) (he : epv a = epv d) : a.cfg = d.cfg := by
   unfold conf at hc; unfold epv at he; omega
 
+theorem dynStage_false {sh : Sh p} {bad : Nat → Bool} {w0 : FW p} {s0 : Store p} {hs0 hs1 : HStore p} {w4 : FW p}
+    (h : w0.g.committed = false) :
+    dynStage sh bad w0 s0 hs0 hs1 w4 =
+      { w := w4, s := s0, hs := hs1, sends := 0, updated := false, bchg := backChanged s0 } := by
+  simp [dynStage, h]
+
+theorem dynStage_true {sh : Sh p} {bad : Nat → Bool} {w0 : FW p} {s0 : Store p} {hs0 hs1 : HStore p} {w4 : FW p}
+    (h : w0.g.committed = true) :
+    dynStage sh bad w0 s0 hs0 hs1 w4 =
+      { w := { w4 with run := { w4.run with back := dynRun s0 bad w4.run.back } }, s := dynStore sh s0, hs := hs1
+        sends := totalSends s0
+        updated := !w0.tcp.changed && !hs0.isChanged && backendUpdated s0 bad w4.run.back w0.pcD
+        bchg := backChanged s0 } := by
+  simp [dynStage, h]
+
 theorem upd_good {o : Opt} {sh : Sh p} (wf : sh.WF) {w : FW p} (hi : FInv o sh w) {f : Fault} (hf : f.good = true) :
     (upd o sh f w).err = false ∧ FInv o sh (upd o sh f w).w ∧ DiskGood o sh (upd o sh f w).w := by
   unfold upd
@@ -761,15 +776,11 @@ theorem upd_good {o : Opt} {sh : Sh p} (wf : sh.WF) {w : FW p} (hi : FInv o sh w
   obtain ⟨hH, hmaps, hnil⟩ := hosts_after_write hi
   cases hcm : w.g.committed with
   | false =>
+    have hcf : (shrinkFlags w).g.committed = false := hcm
+    rw [dynStage_false hcf]
     apply post_good wf hf
-    · show Inv sh { store := (if (shrinkFlags w).g.committed = true then dynStore sh _ else shrink sh w.g.w.store),
-        disk := (if (shrinkFlags w).g.committed = true then _ else w4Of o sh w).g.w.disk }
-      have : (shrinkFlags w).g.committed = false := hcm
-      simp only [this, Bool.false_eq_true, if_false, w4Of_g]
-      exact hI0
-    all_goals (
-      have hcf : (shrinkFlags w).g.committed = false := hcm
-      simp only [dynStage, hcf, Bool.false_eq_true, if_false, Bool.false_and])
+    all_goals dsimp only
+    · rw [w4Of_g]; exact hI0
     · intro x
       unfold badX
       cases hx : (shrink sh w.g.w.store).items x with
@@ -789,15 +800,11 @@ theorem upd_good {o : Opt} {sh : Sh p} (wf : sh.WF) {w : FW p} (hi : FInv o sh w
     · intro h; cases h
   | true =>
     have hIdyn : Inv sh { store := dynStore sh (shrink sh w.g.w.store), disk := w.g.w.disk } := dynStore_inv hI0
+    have hct : (shrinkFlags w).g.committed = true := hcm
+    rw [dynStage_true hct]
     apply post_good wf hf
-    · show Inv sh { store := (if (shrinkFlags w).g.committed = true then dynStore sh _ else shrink sh w.g.w.store),
-        disk := (if (shrinkFlags w).g.committed = true then _ else w4Of o sh w).g.w.disk }
-      have : (shrinkFlags w).g.committed = true := hcm
-      simp only [this, if_true, w4Of_g]
-      exact hIdyn
-    all_goals (
-      have hct : (shrinkFlags w).g.committed = true := hcm
-      simp only [dynStage, hct, if_true, Bool.true_and])
+    all_goals dsimp only
+    · rw [w4Of_g]; exact hIdyn
     · intro x
       unfold badX
       cases hx : (dynStore sh (shrink sh w.g.w.store)).items x with
@@ -895,6 +902,7 @@ theorem upd_good {o : Opt} {sh : Sh p} (wf : sh.WF) {w : FW p} (hi : FInv o sh w
                 rw [setEpv_eq hconf, ← hx]
             | none =>
               rw [hp] at hx
+              have hx' : (shrink sh w.g.w.store).items x = some c := hx
               simp only []
               cases ha : (shrink sh w.g.w.store).add x with
               | some a =>
@@ -903,13 +911,13 @@ theorem upd_good {o : Opt} {sh : Sh p} (wf : sh.WF) {w : FW p} (hi : FInv o sh w
               | none =>
                 cases hd : (shrink sh w.g.w.store).del x with
                 | some d =>
-                  have := hI0.b2 x ha (by simp [hd])
-                  rw [hx] at this; cases this
+                  have h2 : (shrink sh w.g.w.store).items x = none := hI0.b2 x ha (by simp [hd])
+                  rw [hx'] at h2; cases h2
                 | none =>
-                  have := hI0.b x ha hd
+                  have h2 : (shrink sh w.g.w.store).items x = w.g.w.disk (sh.shardOf x) x := hI0.b x ha hd
                   apply r1 x c
                   simp only [load]
-                  rw [← this]; exact hx
+                  rw [← h2]; exact hx'
           · intro x
             show (w4Of o sh w).run.maps x = if (w4Of o sh w).mainHosts = true then (w4Of o sh w).h.maps x else none
             rw [w4Of_run, w4Of_mainHosts, w4Of_h, hw]
@@ -950,11 +958,11 @@ theorem upd_good {o : Opt} {sh : Sh p} (wf : sh.WF) {w : FW p} (hi : FInv o sh w
                 · simp [hn]
             · rfl
           · show (w4Of o sh w).run.tcpMap = (w4Of o sh w).tcp.map
+            have htc' : w.tcp.changed = false := htc
             rw [w4Of_run, w4Of_tcp_map, r4]
-            simp [htc, load]
+            simp [htc']
           · show (w4Of o sh w).run.tcpCrt = (w4Of o sh w).tcp.crt
             rw [w4Of_run, w4Of_tcp_crt, r5]
-            simp only [load]
             split
             · rename_i hw0
               have : w.tcp.want ≠ 0 := by simpa using hw0
@@ -962,6 +970,51 @@ theorem upd_good {o : Opt} {sh : Sh p} (wf : sh.WF) {w : FW p} (hi : FInv o sh w
             · rfl
           · show (w4Of o sh w).run.tcpMain = (w4Of o sh w).tcp.main
             rw [w4Of_run, w4Of_tcp_main, r6]
-            rfl
+
+/-! ### the reload queue worker -/
+
+theorem qrun_inv {o : Opt} {sh : Sh p} {w : FW p} (hi : FInv o sh w) (f : Fault) : FInv o sh (qrun sh f w).w := by
+  obtain ⟨hb, hh, hhm, hbc, hmh, ht1, ht2, hbm1, hbm2, hpc1, hpc2, hq, hr⟩ := hi
+  unfold qrun
+  cases hp : w.pending with
+  | false => simp only [Bool.not_false, if_true]; exact ⟨hb, hh, hhm, hbc, hmh, ht1, ht2, hbm1, hbm2, hpc1, hpc2, hq, hr⟩
+  | true =>
+    have hqt : o.queue = true := by
+      cases hqq : o.queue with
+      | true => rfl
+      | false => have := hq hqq; rw [hp] at this; cases this
+    simp only [Bool.not_true, Bool.false_eq_true, if_false, reload]
+    cases hf : f.isReload with
+    | true =>
+      simp only [if_true]
+      have hq' : o.queue = false → true = false := fun h => by rw [h] at hqt; cases hqt
+      exact ⟨hb, hh, hhm, hbc, hmh, ht1, ht2, hbm1, hbm2, hpc1, hpc2, hq', Or.inl rfl⟩
+    | false =>
+      simp only [Bool.false_eq_true, if_false]
+      exact ⟨hb, hh, hhm, hbc, hmh, ht1, ht2, hbm1, hbm2, hpc1, hpc2, fun _ => rfl, Or.inr (runGood_load rfl)⟩
+
+theorem qrun_diskGood {o : Opt} {sh : Sh p} {w : FW p} (hd : DiskGood o sh w) (f : Fault) :
+    DiskGood o sh (qrun sh f w).w := by
+  unfold qrun
+  cases w.pending with
+  | false => exact hd
+  | true =>
+    simp only [Bool.not_true, Bool.false_eq_true, if_false, reload]
+    cases f.isReload <;> exact hd
+
+/-- a fault-free run of the worker empties the queue and leaves HAProxy with the files -/
+theorem qrun_settles {o : Opt} {sh : Sh p} {w : FW p} (hi : FInv o sh w) {f : Fault} (hf : f.isReload = false) :
+    (qrun sh f w).err = false ∧ (qrun sh f w).w.pending = false ∧ RunGood sh (qrun sh f w).w := by
+  unfold qrun
+  cases hp : w.pending with
+  | false =>
+    simp only [Bool.not_false, if_true]
+    refine ⟨by first | rfl | trivial, hp, ?_⟩
+    rcases hi.r with h | h
+    · rw [hp] at h; cases h
+    · exact h
+  | true =>
+    simp only [Bool.not_true, Bool.false_eq_true, if_false, reload, hf]
+    exact ⟨by first | rfl | trivial, by first | rfl | trivial, runGood_load rfl⟩
 
 end HapVerif.C12
